@@ -124,11 +124,24 @@ def impl_format(L, script):
         return ("err", classify(ex))
 
 
-def oracle(Ls, Rs, opts):
+def parse(xs, wrap=False):
+    """wrap: hand the document over as a NON-ROOT element of a larger document
+    (diff_trees(doc[1], ...)): Differ and the formatter each deep-copy the element,
+    which makes it the root of its own document."""
+    if xs is None:
+        return None
+    if not wrap:
+        return etree.fromstring(xs)
+    return etree.fromstring("<doc><pre><x/></pre>%s<post/><!--after--></doc>" % xs)[1]
+
+
+def oracle(Ls, Rs, opts, wrap=False):
     """The property on the implementation.  None = holds; "skip:..." = the differ
     itself raises (C01's business); otherwise the reason it fails."""
     from xmldiff import main
     from xmldiff.formatting import XmlDiffFormatter
+    if wrap:
+        return oracle_wrapped(Ls, Rs, opts)
     try:
         n = len(main.diff_trees(etree.fromstring(Ls), etree.fromstring(Rs), diff_options=dict(opts)))
     except Exception as ex:  # noqa
@@ -165,6 +178,23 @@ def oracle(Ls, Rs, opts):
             return "%s(..., formatter=XmlDiffFormatter()) raised %s: %s (script of %d actions)" % (name, type(ex).__name__, ex, n2)
         if not isinstance(t2, str) or f2.entries < n2:
             return "%s: %d bracketed entries for %d edit actions" % (name, f2.entries, n2)
+    return None
+
+
+def oracle_wrapped(Ls, Rs, opts):
+    from xmldiff import main
+    try:
+        n = len(main.diff_trees(parse(Ls, True), parse(Rs, True), diff_options=dict(opts)))
+    except Exception as ex:  # noqa
+        return "skip:diff raised " + type(ex).__name__
+    try:
+        f = counting_formatter()
+        text = main.diff_trees(parse(Ls, True), parse(Rs, True), diff_options=dict(opts), formatter=f)
+    except Exception as ex:  # noqa
+        return "diff_trees(doc[1], doc2[1], formatter=XmlDiffFormatter()) on non-root elements raised %s: %s (script of %d actions)" \
+               % (type(ex).__name__, ex, n)
+    if not isinstance(text, str) or f.entries < n:
+        return "non-root elements: %d bracketed entries for %d edit actions" % (f.entries, n)
     return None
 
 
@@ -205,10 +235,10 @@ def typed_ok(a):
     return True
 
 
-def build_case(Ls, Rs, script, label):
+def build_case(Ls, Rs, script, label, wrap=False):
     """-> dict(term, desc, res) or None when the case is outside the modelled fragment."""
-    L = etree.fromstring(Ls)
-    R = etree.fromstring(Rs) if Rs is not None else None
+    L = parse(Ls, wrap)
+    R = parse(Rs, wrap)
     if not supported(L) or not all(typed_ok(a) for a in script):
         return None
     res = impl_format(L, script)
@@ -219,7 +249,7 @@ def build_case(Ls, Rs, script, label):
     enc = Enc(L)
     e = "(EOk %s %d)" % (coq_str(res[1]), res[2]) if res[0] == "ok" else "(EErr %s)" % ERRS[res[1]]
     term = "(%s, %s, %s, %s, %s)" % (pet, coq_forest(enc), coq_nsmap(L.nsmap), coq_list([coq_gaction(a) for a in script]), e)
-    desc = {"label": label, "left": Ls, "right": Rs, "script": [[type(a).__name__] + list(a) for a in script],
+    desc = {"label": label, "wrap": wrap, "left": Ls, "right": Rs, "script": [[type(a).__name__] + list(a) for a in script],
             "impl": res[1] if res[0] == "err" else {"text": res[1], "entries": res[2]}}
     return {"term": term, "desc": desc, "res": res}
 
@@ -279,6 +309,92 @@ def gen_pairs(run, rng):
     for a in trees:
         for b in trees:
             out.append(("exhaustive", a, b, {}))
+    return out
+
+
+def _kid(kind, i):
+    if kind == "!":
+        return etree.Comment("c%d" % i)
+    return etree.Element(kind)
+
+
+def comment_pairs_exhaustive():
+    """every child sequence of length <= 3 over {comment, a, b} below <r>, against the same
+    sequence with one new element <n/> at each position (inserts after comments, comments as
+    the previous sibling: utils.getpath prints comment()[k]) and against each rotation that
+    moves the first child to a later position (moves within the same parent past comments)"""
+    import itertools
+    out = []
+    for k in range(0, 4):
+        for seq in itertools.product("!ab", repeat=k):
+            def mk(order, extra=None):
+                r = etree.Element("r")
+                kids = [_kid(seq[j], j) for j in order]
+                if extra is not None:
+                    kids.insert(extra, etree.Element("n"))
+                for c in kids:
+                    r.append(c)
+                return xml(r)
+            base = mk(range(k))
+            for pos in range(0, k + 1):
+                out.append(("comments-exhaustive", base, mk(range(k), pos), {}))
+            for to in range(1, k):
+                order = list(range(1, k))
+                order.insert(to, 0)
+                out.append(("comments-exhaustive", base, mk(order), {}))
+    return out
+
+
+def gen_comment_pairs(rng, n):
+    """comment-heavy parents; the right side inserts new elements at positions > 0, moves
+    children to later positions, drops and adds comments"""
+    out = []
+    for _ in range(n):
+        r = etree.Element(rng.choice("ab"))
+        parents = [r]
+        for i in range(rng.randint(2, 7)):
+            par = rng.choice(parents)
+            if rng.random() < .5:
+                par.append(etree.Comment(rng.choice(["c1", "c2", "", "note"])))
+            else:
+                e = etree.SubElement(par, rng.choice("abc"))
+                if rng.random() < .4:
+                    e.set(rng.choice("ij"), rng.choice("12"))
+                if rng.random() < .3:
+                    e.tail = rng.choice(["t", "x y"])
+                parents.append(e)
+        R = deepcopy(r)
+        for _ in range(rng.randint(1, 3)):
+            elems = [e for e in R.iter() if isinstance(e.tag, str)]
+            par = rng.choice(elems)
+            op = rng.randrange(4)
+            if op <= 1:      # insert at a position > 0 when possible
+                par.insert(rng.randint(min(1, len(par)), len(par)), etree.Element(rng.choice(["n", "m", "a"])))
+            elif op == 2 and len(par) >= 2:   # move a child to a later position
+                i = rng.randrange(len(par) - 1)
+                c = par[i]
+                tail = c.tail
+                par.remove(c)
+                c.tail = tail
+                par.insert(rng.randint(i + 1, len(par)), c)
+            else:
+                par.insert(rng.randint(0, len(par)), etree.Comment(rng.choice(["c1", "new"])))
+        out.append(("comments", xml(r), xml(R), rng.choice([{}, {}, {"fast_match": True}, {"F": 0.9}, {"best_match": True}])))
+    return out
+
+
+def new_prefix_pairs():
+    """small pairs whose right root declares a prefix the left root lacks (InsertNamespace first),
+    followed by inserts at positions > 0, a move and an attribute rename below an element of that namespace"""
+    out = []
+    lefts = ['<r/>', '<r><k/></r>', '<r i="1"><k/><m/></r>', '<r xmlns:p="urn:p"><p:a/><k/></r>']
+    rights = ['<r xmlns:q="urn:q"><q:b><k/><m/></q:b></r>',
+              '<r xmlns:q="urn:q"><q:b><!--c--><k/></q:b><q:b/></r>',
+              '<r xmlns:q="urn:q" xmlns:p="urn:p"><q:b j="1"><p:a/><k/><m/></q:b></r>',
+              '<q:b xmlns:q="urn:q"><m/><k/><q:b/></q:b>']
+    for a in lefts:
+        for b in rights:
+            out.append(("new-prefix", a, b, {}))
     return out
 
 
@@ -386,15 +502,19 @@ def main(run):
     run.log("proof stage:", "ok" if ok else "BROKEN %s" % pinfo.get("failed"))
     quick = run.tier == "quick"
     pairs = gen_pairs(run, rng)
+    pairs += comment_pairs_exhaustive() + gen_comment_pairs(rng, 120 if quick else 1500) + new_prefix_pairs()
     dns_pairs = gen_default_ns_pairs(rng, 12 if quick else 100)
+    # non-root elements: a sample of the main stream handed over as doc[1] of a larger document
+    sub_pairs = [("sub-element",) + p[1:] for p in pairs if p[0] != "exhaustive"][::(3 if quick else 2)]
+    sub_pairs += [("sub-element", a, b, {}) for a in gen.all_trees(2) for b in gen.all_trees(3)]
 
     built, viols = [], []
     stats = {"pairs": 0, "differ_raised": 0, "scripts_nonempty": 0, "actions": 0, "labels": {}, "impl_outcomes": {},
              "skipped_outside_fragment": 0, "action_histogram": {}, "entry_keywords": {}}
     hist = stats["action_histogram"]
 
-    def add(Ls, Rs, script, label):
-        c = build_case(Ls, Rs, script, label)
+    def add(Ls, Rs, script, label, wrap=False):
+        c = build_case(Ls, Rs, script, label, wrap)
         if c is None:
             stats["skipped_outside_fragment"] += 1
             return
@@ -412,21 +532,24 @@ def main(run):
 
     # (1) the property on the implementation + correspondence on differ scripts
     nmut = 0
-    for label, Ls, Rs, opts in pairs + dns_pairs:
+    for label, Ls, Rs, opts in pairs + dns_pairs + sub_pairs:
+        wrap = label == "sub-element"
         stats["pairs"] += 1
-        why = oracle(Ls, Rs, opts)
+        why = oracle(Ls, Rs, opts, wrap)
         if why and why.startswith("skip:"):
             stats["differ_raised"] += 1
             continue
-        d = {"left": Ls, "right": Rs, "opts": {k: (list(v) if isinstance(v, tuple) else v) for k, v in opts.items()}}
+        d = {"left": Ls, "right": Rs, "wrap": wrap, "opts": {k: (list(v) if isinstance(v, tuple) else v) for k, v in opts.items()}}
         if why:
             viols.append({"what": why, "replay": dict(d, finding_key=differ_props.finding_key(d, "C18", why))})
-        script = xm.diff_trees(etree.fromstring(Ls), etree.fromstring(Rs), diff_options=dict(opts))
+        script = xm.diff_trees(parse(Ls, wrap), parse(Rs, wrap), diff_options=dict(opts))
         stats["scripts_nonempty"] += bool(script)
         stats["actions"] += len(script)
         for a in script:
             hist[type(a).__name__] = hist.get(type(a).__name__, 0) + 1
-        add(Ls, Rs, script, label)
+        add(Ls, Rs, script, label, wrap)
+        if wrap:
+            continue
         # (2) mutated scripts (a third of the pairs)
         if script and label != "exhaustive" and rng.random() < .5:
             for _ in range(2):
@@ -486,10 +609,13 @@ def main(run):
 
         class T:
             tier = "thorough"
-        for label, Ls, Rs, opts in gen_pairs(T(), r2)[:3000]:
-            why = oracle(Ls, Rs, opts)
+        cand = gen_pairs(T(), r2)[:3000] + gen_comment_pairs(r2, 2000)
+        cand += [("sub-element",) + p[1:] for p in cand[::3]]
+        for label, Ls, Rs, opts in cand:
+            wrap = label == "sub-element"
+            why = oracle(Ls, Rs, opts, wrap)
             if why and not why.startswith("skip:"):
-                d = {"left": Ls, "right": Rs, "opts": {k: (list(v) if isinstance(v, tuple) else v) for k, v in opts.items()}}
+                d = {"left": Ls, "right": Rs, "wrap": wrap, "opts": {k: (list(v) if isinstance(v, tuple) else v) for k, v in opts.items()}}
                 out.append({"what": why, "replay": dict(d, finding_key=differ_props.finding_key(d, "C18", why))})
                 if len(out) >= 10:
                     break
@@ -507,7 +633,9 @@ def main(run):
         "distinct_nontrivial": len(nontriv),
         "rule": "oracle on every generated pair (<= 8 nodes; tags, attributes, texts with newlines/brackets/commas, tails, comments, "
                 "namespaces, prefix-declaration variants, a shared default namespace; %d option sets) plus all pairs of trees with <= 3 nodes "
-                "over 2 tags, plus a separate labelled stream of %d pairs whose roots differ in the default namespace; correspondence on the "
+                "over 2 tags, plus comment-heavy parents (every child sequence of length <= 3 over comment/a/b with an insert at every position and "
+                "every move of the first child to a later position; seeded larger ones with inserts at positions > 0, moves, comment edits), plus a "
+                "sample handed over as NON-ROOT elements of a larger document (diff_trees(doc[1], doc2[1], ...)), plus a separate labelled stream of %d pairs whose roots differ in the default namespace; correspondence on the "
                 "differ's script of every pair, on %d mutated scripts and on hand-made scripts aimed at each handler's failure points; "
                 "the premises and the conclusion of C18_total evaluated in Coq on the identity-level script of every main-stream pair (%d); "
                 "non-trivial = distinct case with a non-empty script" % (len(option_sets()), len(dns_pairs), nmut, len(prem)),
@@ -532,7 +660,7 @@ def replay(run, path):
         print("replay names a broken tie, not an input:", d.get("broken"))
         return 1
     opts = {k: (v if k != "uniqueattrs" else [tuple(x) if isinstance(x, list) else x for x in v]) for k, v in d["opts"].items()}
-    why = oracle(d["left"], d["right"], opts)
+    why = oracle(d["left"], d["right"], opts, bool(d.get("wrap")))
     if why and why.startswith("skip:"):
         print("the differ itself fails on this input:", why)
         return 1
